@@ -22,7 +22,30 @@ PROP = "C01"
 COQ_TARGETS = ["theories/Model/ViewRun.vo"]
 IMPL = "c01_impl.py"
 MAX_LOCALISE = 5
+ORIGINS = {"old": ["standalone", "coll_get", "coll_rc", "aln_get", "aln_gapped"],
+           "new": ["standalone", "coll_get", "coll_seqs", "coll_rc"]}
+ROUTES = {"old": ["str", "iter", "getitem"], "new": ["str", "iter", "getitem", "bytes", "array"]}
+STEP_CLASSES = ["+1", "+k", "-1", "-k"]
+FORCED_STRIDES = [[["slice", None, None, -1]], [["slice", 2, None, 3]], [["slice", 1, 15, None], ["slice", None, None, 2]], [["rc"], ["slice", None, None, -3]],
+                  [["slice", None, None, -2]], [["slice", None, None, -1], ["slice", 1, None, 2]], [["slice", 1, None, None]]]
+
+
+def pick_origin(impl, mt, off, i, p):
+    """cycle through the ways of obtaining the sequence (collections carry no offset); returns (origin, parent, nomodel)"""
+    if off:
+        return "standalone", p, False
+    origin = ORIGINS[impl][i % len(ORIGINS[impl])]
+    if origin == "coll_rc" and mt not in ("dna", "rna"):
+        origin = "coll_get"
+    if origin.startswith("aln"):
+        p = p.replace("-", "").replace("?", "") or "A"       # rows without gaps: get_seq == get_gapped_seq == the row
+    # no sequence-level model case for: a collection that was reverse-complemented (starts from a reversed view); a new-style
+    # collection sequence (SeqDataView-backed: its empty slices keep seqid and seq_len, the sequence model is the SeqView
+    # flavour - the SeqDataView flavour is tied at kernel level, class "sdv").  Those cases are decided by the oracle alone.
+    return origin, p, origin == "coll_rc" or (impl == "new" and origin.startswith("coll"))
+
 _SEEN: set = set()
+MATRIX: dict = {}
 
 
 def first_time(c) -> bool:
@@ -84,8 +107,8 @@ def coq_case(c, detail=False):
 
 def run_model(cases, detail=False, shard=None):
     """evaluate the (deduplicated) Coq terms; returns one value per case"""
-    terms = [coq_case(c, detail) for c in cases]
-    uniq = list(dict.fromkeys(terms))
+    terms = [None if c.get("nomodel") else coq_case(c, detail) for c in cases]
+    uniq = list(dict.fromkeys(t for t in terms if t is not None))
     # heavy lattice cases: few per file; light chains: many
     heavy = [t for t in uniq if t.startswith("KLattice") or t.startswith("KCtor")]
     light = [t for t in uniq if not (t.startswith("KLattice") or t.startswith("KCtor"))]
@@ -98,7 +121,7 @@ def run_model(cases, detail=False, shard=None):
         per = max(20, min(300, (len(light) + 7) // 8))
         for t, r in zip(light, core.coq_eval(PROP, ["Lib.PyZ", "Model.View", "Model.ViewRun"], "run_case", light, "kcase", shard=per, tag="l")):
             out[t] = r
-    return [out[t] for t in terms]
+    return [None if t is None else out[t] for t in terms]
 
 
 # ------------------------------------------------------------------ generators
@@ -205,12 +228,21 @@ def rand_sops(rng, mt, n, depth):
     return ops
 
 
-def rand_schain(rng):
+def rand_schain(rng, i=0):
     mt = rng.choice(["dna", "dna", "rna", "protein", "text"])
     n = rng.choice([0, 1, 2, 3, 5, 8, 13, 21, 40, rng.randint(0, 40)])
     p = "".join(rng.choice(ALPHABETS[mt]) for _ in range(n))
-    return dict(kind="schain", impl=rng.choice(["old", "new"]), mt=mt, p=p, off=rng.choice([0, 0, 3, 17]),
-                ops=rand_sops(rng, mt, n, rng.randint(1, 6)), block="schain")
+    impl = rng.choice(["old", "new"])
+    off = rng.choice([0, 0, 0, 3, 17])
+    origin, p, nomodel = pick_origin(impl, mt, off, i, p)
+    ops = rand_sops(rng, mt, len(p), rng.randint(1, 6))
+    if origin != "standalone" and i % 2 == 0:
+        forced = FORCED_STRIDES[(i // 2) % len(FORCED_STRIDES)]
+        ops = [o if (o[0] != "rc" or mt in ("dna", "rna")) else ["slice", None, None, -1] for o in forced] + ops[:3]
+    c = dict(kind="schain", impl=impl, mt=mt, p=p, off=off, ops=ops, block="schain", origin=origin)
+    if nomodel:
+        c["nomodel"] = True
+    return c
 
 
 def corpus_schains():
@@ -228,16 +260,41 @@ def corpus_schains():
     return out
 
 
-def rand_methods(rng, force_rev=None):
+def corpus_origins():
+    """every way of obtaining a sequence x every forced stride shape (positive / negative, |step| = 1 / > 1), as a chain
+    (with to_rna / to_dna appended for nucleic acids) and as a method comparison"""
+    out = []
+    for impl in ("old", "new"):
+        for origin in ORIGINS[impl]:
+            for mt, p in (("dna", "ACGGTNRYACTTGCAAT"), ("rna", "ACGGUNRYACUUGCAAU"), ("protein", "ACDEFGHIKLMNPQRST")):
+                if origin == "coll_rc" and mt == "protein":
+                    continue
+                for forced in FORCED_STRIDES:
+                    ops = [o if (o[0] != "rc" or mt != "protein") else ["slice", None, None, -1] for o in forced]
+                    tail = [["to_rna" if mt == "dna" else "to_dna"]] if mt != "protein" else []
+                    c = dict(kind="schain", impl=impl, mt=mt, p=p, off=0, ops=ops + tail, block="origins", origin=origin)
+                    if origin == "coll_rc" or (impl == "new" and origin.startswith("coll")):
+                        c["nomodel"] = True
+                    out.append(c)
+                    out.append(dict(kind="methods", impl=impl, mt=mt, p=p, off=0, ops=ops, other=p[::-1], block="methods", origin=origin))
+    return out
+
+
+def rand_methods(rng, force_rev=None, i=0):
     mt = rng.choice(["dna", "dna", "rna", "protein", "text"])
     n = rng.choice([1, 2, 3, 6, 9, 12, 21, rng.randint(1, 30)])
     p = "".join(rng.choice(ALPHABETS[mt]) for _ in range(n))
-    ops = rand_sops(rng, mt, n, rng.randint(1, 4))
+    impl = rng.choice(["old", "new"])
+    off = rng.choice([0, 0, 0, 3, 17])
+    origin, p, _ = pick_origin(impl, mt, off, i, p)
+    ops = rand_sops(rng, mt, len(p), rng.randint(1, 4))
     if force_rev:
         ops.append(["slice", None, None, -1])
-    other = "".join(rng.choice(ALPHABETS[mt]) for _ in range(max(1, n)))
-    return dict(kind="methods", impl=rng.choice(["old", "new"]), mt=mt, p=p, off=rng.choice([0, 0, 3, 17]), ops=ops, other=other,
-                block="methods")
+    if origin != "standalone" and i % 2 == 1:
+        forced = FORCED_STRIDES[(i // 2) % len(FORCED_STRIDES)]
+        ops = [o if (o[0] != "rc" or mt in ("dna", "rna")) else ["slice", None, None, -1] for o in forced]
+    other = "".join(rng.choice(ALPHABETS[mt]) for _ in range(max(1, len(p))))
+    return dict(kind="methods", impl=impl, mt=mt, p=p, off=off, ops=ops, other=other, block="methods", origin=origin)
 
 
 def corpus_methods():
@@ -324,6 +381,8 @@ def compare(rep, cases, impl, model, stats, disagreements):
         st["observations"] += ir.get("n", 0)
         if first_time(c):
             st["nontrivial"] += ir.get("nontrivial", 0)
+        for cell, k in (ir.get("matrix") or {}).items():
+            MATRIX[cell] = MATRIX.get(cell, 0) + k
         for b in ir.get("bad", []):
             small = {k: v for k, v in c.items() if k not in ("avals", "bvals", "cvals", "want_states")}
             rep.violation(b["key"], dict(case=small, finding=b, expected_by_spec=b.get("expected_str", b.get("expected")),
@@ -334,6 +393,8 @@ def compare(rep, cases, impl, model, stats, disagreements):
                 want = list(mr)
                 if [g if g is not None else w for g, w in zip(got, want)] != want:
                     disagreements.append(dict(key=f"comp:{c['mt']}:{which}", case=c, observed_impl=got, model_output=mr))
+            continue
+        if c.get("nomodel"):
             continue
         if ir["digest"] != mr:
             if c["kind"] == "schain" and not c.get("variant"):
@@ -368,6 +429,8 @@ def check_methods(rep, cases, impl, stats):
             rep.violation(f"runner:methods:{c['impl']}", dict(case=c, observed_impl=ir, broken="the implementation runner itself failed"))
             continue
         st["observations"] += ir["n_methods"]
+        cell = f"{ir.get('origin', 'standalone')}|methods|{ir.get('step_class', '?')}"
+        MATRIX[cell] = MATRIX.get(cell, 0) + ir["n_methods"]
         if first_time(c):
             st["nontrivial"] += ir["nontrivial"]
         skipped |= set(ir["skipped"])
@@ -381,11 +444,37 @@ def check_methods(rep, cases, impl, stats):
     return listed, sorted(skipped)
 
 
+def matrix_report():
+    """sequence origin x realisation route x step class -> number of comparisons with the oracle (routes) / of method
+    comparisons (methods); kernel-<class> rows: the three realisations of a view compared with each other"""
+    expected = []
+    for impl in ("old", "new"):
+        for origin in ORIGINS[impl]:
+            for route in ROUTES[impl] + ["methods"]:
+                for sc in STEP_CLASSES:
+                    expected.append((impl, f"{origin}|{route}|{sc}"))
+    for cls in ("new", "sdv"):
+        for route in ("str_value", "bytes_value", "array_value"):
+            for sc in STEP_CLASSES:
+                expected.append((cls, f"kernel-{cls}|{route}|{sc}"))
+    # cells are keyed without the implementation; routes bytes/array exist for new-style only, aln_* origins for old-style only
+    cells = dict(sorted(MATRIX.items()))
+    empty = sorted({cell for _, cell in expected if not MATRIX.get(cell)})
+    return dict(axes=dict(origin=sorted({o for v in ORIGINS.values() for o in v}) + ["kernel-new", "kernel-sdv"],
+                          route=sorted({r for v in ROUTES.values() for r in v}) + ["methods", "str_value", "bytes_value", "array_value"],
+                          step_class=STEP_CLASSES),
+                counts=cells, empty_cells=empty,
+                note="origins: standalone = make_seq; coll_get / coll_seqs = make_unaligned_seqs(...).get_seq(name) / .seqs[name]; "
+                     "coll_rc = the same after collection.rc(); aln_get / aln_gapped = old-style make_aligned_seqs(...).get_seq / "
+                     "get_gapped_seq (gap-free rows).  New-style collection sequences are SeqDataView-backed.")
+
+
 # ------------------------------------------------------------------ the check
 
 def run(tier: str, seed: int) -> int:
     rep = core.Report(PROP, tier, seed)
     _SEEN.clear()
+    MATRIX.clear()
     rng = random.Random(seed * 7919 + 1)
     pr = core.proof_stage(PROP, COQ_TARGETS)
     core.proof_coverage(rep, pr, "make theories/Properties/C01.vo && coqc gen/assum_C01.v (Print Assumptions)", [
@@ -411,8 +500,9 @@ def run(tier: str, seed: int) -> int:
     n_s = (500 if tier == "quick" else 14000) * mult
     n_m = (160 if tier == "quick" else 4000) * mult
     kchains = [rand_kchain(rng) for _ in range(n_k)]
-    schains = corpus_schains() + [rand_schain(rng) for _ in range(n_s)]
-    methods = corpus_methods() + [rand_methods(rng, force_rev=(i % 3 == 0)) for i in range(n_m)]
+    co = corpus_origins()
+    schains = corpus_schains() + [c for c in co if c["kind"] == "schain"] + [rand_schain(rng, i) for i in range(n_s)]
+    methods = corpus_methods() + [c for c in co if c["kind"] == "methods"] + [rand_methods(rng, force_rev=(i % 3 == 0), i=i) for i in range(n_m)]
     phase1 = d1 + ctor_cases(tier) + sdv_offset_cases() + comp_cases() + kchains + schains
     impl1 = core.run_impl_sharded(IMPL, phase1 + methods)
     impl_m = impl1[len(phase1):]
@@ -457,6 +547,7 @@ def run(tier: str, seed: int) -> int:
                                 chains="random: n <= 40, depth <= 6, bounds in [-n-3, n+3] or None, steps to +-7, int indexing, "
                                        "offsets {0,3,17}, moltypes dna/rna/protein/text"),
         methods_compared=listed, methods_skipped_need_arguments=skipped,
+        realisation_matrix=matrix_report(),
         model_impl_disagreements=len(disagreements),
         exhaustive=False,
         partial=[
